@@ -49,9 +49,10 @@ def _trunc_integrate(rp, st):
     a = st["a"]
     t = rp.heap[a["i"]]
     key, k = a["key"], int(a["k"])
-    val = np.asarray(t.integrate(key, k=k) if key == "x**k" else t.integrate(key), dtype=float)
+    val = t.integrate(key, k=k) if key == "x**k" else t.integrate(key)
 
-    def chk(exp):
+    def chk(val, exp):
+        val = np.asarray(val, dtype=float)
         R = len(exp["scale"]["ln"])
         obs = val.reshape(R, -1)
         if obs.shape[1] != 1:
@@ -70,7 +71,7 @@ def _trunc_integrate(rp, st):
                 tol = (TOL * scale[r] + 1e-13 * (val_magnitude(exp["num"][r]) + abs(e) * val_magnitude(exp["den"][r]))) / den
             if not math.isfinite(obs[r, 0]) or abs(obs[r, 0] - e) > tol:
                 raise Mismatch("return", val.tolist(), {"component": r, "expected": e, "tol": tol}, f"value k={k}")
-    return None, ("custom", chk)
+    return None, ("custom", val, chk)
 
 
 @binding("TruncCall")
@@ -79,9 +80,10 @@ def _trunc_call(rp, st):
     t = rp.heap[a["i"]]
     x = stack_q(a["x"])
     ew = bool(a["elementwise"])
-    val = np.asarray(t(x, element_wise=ew), dtype=float)
+    val = t(x, element_wise=ew)
 
-    def chk(exp):
+    def chk(val, exp):
+        val = np.asarray(val, dtype=float)
         cells = exp["cells"]
         R = len(cells)
         for r in range(R):
@@ -100,7 +102,7 @@ def _trunc_call(rp, st):
                 e = math.exp(float(cell["ln"])) / den if cell["inside"] else 0.0
                 if not math.isfinite(o) or abs(o - e) > rel * abs(e):
                     raise Mismatch("return", val.tolist(), {"component": r, "point": n, "expected": e, "inside": cell["inside"]}, "value")
-    return None, ("custom", chk)
+    return None, ("custom", val, chk)
 
 
 @binding("TruncGetDensity")
@@ -112,9 +114,10 @@ def _trunc_get_density(rp, st):
 def _trunc_stat(rp, st):
     a = st["a"]
     t = rp.heap[a["i"]]
-    val = np.asarray(t.get_mean() if a["what"] == "mean" else t.get_variance(), dtype=float)
+    val = t.get_mean() if a["what"] == "mean" else t.get_variance()
 
-    def chk(exp):
+    def chk(val, exp):
+        val = np.asarray(val, dtype=float)
         R = len(exp["m0"])
         obs = val.reshape(R, -1)
         for r in range(R):
@@ -128,4 +131,4 @@ def _trunc_stat(rp, st):
             tol = (TOL + 1e-12 * mag / m0) * max(1.0, abs(mean), abs(m2 / m0)) * (1.0 + (abs(mean) if a["what"] != "mean" else 0.0))
             if not math.isfinite(obs[r, 0]) or abs(obs[r, 0] - e) > tol:
                 raise Mismatch("return", val.tolist(), {"component": r, "expected": e, "tol": tol}, a["what"])
-    return None, ("custom", chk)
+    return None, ("custom", val, chk)
